@@ -65,6 +65,8 @@ def check_case(ctx, case):
     legend = case.get('legend')
     if legend is not None:
         doc += legend['text']
+    if case.get('crlf'):
+        doc = doc.replace('\n', '\r\n')
     sc_ = case.get('scale', 8.0)
     s = F(repr(sc_))
     r = ctx.conv(doc, flags=2, scale=sc_)
@@ -97,7 +99,7 @@ def check_case(ctx, case):
         bcss = css_norm(Scene(base.out).style[0].text)
         if css != (bcss + ' ' + want).strip():
             return 'style sheet is not the built-in sheet followed by exactly the legend rules: tail %r' % css[len(bcss):][:200]
-        rb = ctx.conv(gen.text_of(body), flags=2, scale=sc_)
+        rb = ctx.conv(gen.text_of(body).replace('\n', '\r\n') if case.get('crlf') else gen.text_of(body), flags=2, scale=sc_)
         sb = Scene(rb.out)
         ua, ub = multiset_match(sb.els, sc.els, F(0))
         if ua or ub or (sb.W, sb.H) != (sc.W, sc.H):
@@ -240,6 +242,7 @@ def run_shard(ctx, shard):
             case.update(body=rows, kind=kind)
         if rng.random() < 0.7 or kind == 'legend_only':
             case['legend'] = make_legend(rng)
+        case['crlf'] = rng.random() < 0.25
         ctx.run_case(case)
         if i == 0:
             ctx.sample({'document': gen.text_of(case['body']) + (case['legend']['text'] if case.get('legend') else '')})
